@@ -1,6 +1,6 @@
 (* Model/QcRun.v — the real-valued models instantiated at the extracted field (stdlib Qc). *)
 From Coq Require Import List QArith Qcanon.
-From AmiscV Require Import Field QcInst Lagr.
+From AmiscV Require Import Field QcInst Lagr Fpi.
 
 Definition q_refine1 := @refine1 Qc qc_ops.
 Definition q_basis1 := @basis1 Qc qc_ops.
@@ -11,6 +11,7 @@ Definition q_tgrad := @tgrad Qc qc_ops.
 Definition q_misc_predict := @misc_predict Qc qc_ops.
 Definition q_misc_grad := @misc_grad Qc qc_ops.
 Definition q_mk_grid := @mk_grid Qc qc_ops.
+Definition q_trace_ok := @trace_ok Qc qc_ops.
 
 (* concrete instances used by refutation theorems (written here, under stdlib scopes) *)
 Import ListNotations.
